@@ -13,7 +13,7 @@ import numpy as np
 
 from . import common
 from . import pbcommon as pb
-from .c02 import close, hyps_of
+from .c02 import close, hyps_of, traced_call
 
 
 def translate(ctx):
@@ -47,6 +47,7 @@ def run(ctx):
                         'with margin < 1e-6 are skipped (ties_skipped)']
     n = 800 if ctx.quick() else 9000
     reqs, impl = [], []
+    treqs, timpl = [], []
     for it in range(n):
         rows = pb.gen_matrix(rng)
         if pb.near_threshold(rows):
@@ -85,8 +86,12 @@ def run(ctx):
                     dec(pb.to_logits(rows_w), model_eos=model_eos, return_h=True, init_h=None if hw is None else np.array([hw], dtype=np.int64))
                 except Exception:
                     pass
+        trace = None
         try:
-            bag, h_ret = dec(L, model_eos=model_eos, return_h=True, init_h=None if h0 is None else np.array([h0], dtype=np.int64))
+            if rng.random() < 0.5:
+                (bag, h_ret), trace = traced_call(dec, L, model_eos=model_eos, return_h=True, init_h=None if h0 is None else np.array([h0], dtype=np.int64))
+            else:
+                bag, h_ret = dec(L, model_eos=model_eos, return_h=True, init_h=None if h0 is None else np.array([h0], dtype=np.int64))
         except Exception as e:
             ctx.violation('raises:' + type(e).__name__, 'decoder with LM raised %r' % (e,), inp)
             continue
@@ -148,6 +153,9 @@ def run(ctx):
                          lm=dict(m=toy.m, table=[pb.rat(x) for x in toy.table], eos=[pb.rat(x) for x in toy.eos], h0=start,
                                  bonus=pb.rat(bonus), num=num, den=den, model_eos=model_eos)))
         impl.append((inp, got, None if tie else best_tr, int(h_ret[0]), bag.posteriors() if den == 1 else None))
+        if trace is not None and len(trace) == T:
+            treqs.append(dict(reqs[-1], op='trace'))
+            timpl.append((inp, trace))
     if ctx.driver_ok:
         rep = common.Driver(ctx).batch(reqs)
         for r, (inp, got, best_tr, h_ret, post) in zip(rep, impl):
@@ -180,6 +188,34 @@ def run(ctx):
                     ctx.disagree('C03 posteriors differ', inp, gp, mp)
                     continue
             ctx.traces_validated += 1
+        # per-frame correspondence with the LM: beam (prefix -> Pb, Pnb, LM score) at the start of every frame
+        trep = common.Driver(ctx).batch(treqs)
+        for r, (inp, trace) in zip(trep, timpl):
+            m = r.get('ok')
+            if m is None:
+                ctx.disagree('C03 trace: model error', inp, None, r)
+                continue
+            okc = True
+            for t in range(len(trace) - 1):
+                mg = m[t]['margin']
+                if mg is not None and F(mg[0], mg[1]) < F(1, 10 ** 6):
+                    ctx.count('trace_frames_skipped_after_tie', len(trace) - 1 - t)
+                    break
+                pre, Pb_, Pnb_, Plm_ = trace[t + 1]
+                mb = {tuple(e[0]): (float(F(*e[1])), float(F(*e[2])), float(F(*e[3]))) for e in m[t]['beam']}
+                gb = {p: (math.exp(a), math.exp(b)) for p, a, b in zip(pre, Pb_, Pnb_)}
+                bad = set(mb) != set(gb) or any(not close(gb[p][0], mb[p][0]) or not close(gb[p][1], mb[p][1]) for p in mb)
+                if not bad and Plm_ is not None:
+                    gl = {p: math.exp(x) for p, x in zip(pre, Plm_)}
+                    bad = any(not close(gl[p], mb[p][2], 1e-7) for p in mb)
+                if bad:
+                    ctx.disagree('C03 trace: beam after frame %d differs (prefix -> Pb, Pnb, LM score)' % t, inp,
+                                 {str(p): v for p, v in sorted(gb.items())}, {str(p): v for p, v in sorted(mb.items())})
+                    okc = False
+                    break
+                ctx.count('trace_frames_compared')
+            if okc:
+                ctx.traces_validated += 1
     else:
         ctx.notes.append('driver unavailable: correspondence skipped, oracle only')
 
